@@ -436,6 +436,15 @@ pub fn adjust(cfg: &mut SwarmCfg, tier: &str, r: &mut Prng) {
             cfg.faults.push(f.into());
         }
     }
+    if prop == "C18" && r2.chance(1, 3) {
+        // PSK values are replaced under the same id while the group runs
+        setw(cfg, "psk_rotate", 3);
+    }
+    if prop == "C14" && r2.chance(1, 2) {
+        // hand-made signature verification inputs (points of small order, non-canonical scalars)
+        setw(cfg, "crafted_verify", 8);
+        cfg.faults.push("K-SMALL-ORDER".into());
+    }
     if prop == "C12" && r2.chance(1, 2) {
         // custom proposals whose type sits on the boundary of the RFC-defined range
         setw(cfg, "custom_type", 6);
@@ -472,6 +481,12 @@ pub fn extra_kinds(w: &World, kinds: &mut Vec<(&'static str, u32)>) {
     }
     if w.cfg.weight("custom_type") > 0 && w.live_members(g).len() >= 2 {
         kinds.push(("custom_type", w.cfg.weight("custom_type")));
+    }
+    if w.cfg.weight("psk_rotate") > 0 {
+        kinds.push(("psk_rotate", w.cfg.weight("psk_rotate")));
+    }
+    if w.cfg.weight("crafted_verify") > 0 && matches!(w.cfg.suite, 1 | 3) {
+        kinds.push(("crafted_verify", w.cfg.weight("crafted_verify")));
     }
     if w.cfg.weight("clear_cache") > 0 && w.live_members(g).iter().any(|p| !w.parties[*p].mems[g].cached.is_empty()) {
         kinds.push(("clear_cache", w.cfg.weight("clear_cache")));
@@ -627,6 +642,18 @@ pub fn extra_action(w: &mut World, kind: &str) -> Option<Action> {
                 c: g as u64,
             })
         }
+        "psk_rotate" => Some(Action::Special {
+            kind: "psk_rotate".into(),
+            a: w.prng.below(4),
+            b: w.prng.below(1 << 16),
+            c: 0,
+        }),
+        "crafted_verify" => Some(Action::Special {
+            kind: "crafted_verify".into(),
+            a: w.prng.usize_below(w.parties.len()) as u64,
+            b: w.prng.below(300),
+            c: 0,
+        }),
         "clear_cache" | "member_hpke" | "custom_type" => {
             let live = w.live_members(g);
             Some(Action::Special {
